@@ -1614,11 +1614,22 @@ class RedirectAgent:
         """
         return _urljoin(requestURI, location)
 
-    def _handleRedirect(self, response, method, uri, headers, redirectCount):
+    def _handleRedirect(
+        self, response, method, uri, headers, redirectCount, requestURI=None
+    ):
         """
         Handle a redirect response, checking the number of redirects already
         followed, and extracting the location header fields.
+
+        @param uri: The I{URI} of the original request: reported in errors
+            and used to decide whether a redirect leaves the original origin.
+
+        @param requestURI: The I{URI} of the request C{response} answers,
+            against which a relative I{Location} is resolved.  L{None} means
+            C{uri} (the response answers the original request).
         """
+        if requestURI is None:
+            requestURI = uri
         if redirectCount >= self._redirectLimit:
             err = error.InfiniteRedirection(
                 response.code, b"Infinite redirection detected", location=uri
@@ -1630,7 +1641,7 @@ class RedirectAgent:
                 response.code, b"No location header field", uri
             )
             raise ResponseFailed([Failure(err)], response)
-        location = self._resolveLocation(uri, locationHeaders[0])
+        location = self._resolveLocation(requestURI, locationHeaders[0])
         if headers:
             parsedURI = URI.fromBytes(uri)
             parsedLocation = URI.fromBytes(location)
@@ -1655,20 +1666,29 @@ class RedirectAgent:
 
         deferred.addCallback(_chainResponse)
         return deferred.addCallback(
-            self._handleResponse, method, uri, headers, redirectCount + 1
+            self._handleResponse, method, uri, headers, redirectCount + 1, location
         )
 
-    def _handleResponse(self, response, method, uri, headers, redirectCount):
+    def _handleResponse(
+        self, response, method, uri, headers, redirectCount, requestURI=None
+    ):
         """
         Handle the response, making another request if it indicates a redirect.
+
+        @param requestURI: The I{URI} of the request C{response} answers, if
+            it is not the original request for C{uri}.
         """
         if response.code in self._redirectResponses:
             if method not in (b"GET", b"HEAD"):
                 err = error.PageRedirect(response.code, location=uri)
                 raise ResponseFailed([Failure(err)], response)
-            return self._handleRedirect(response, method, uri, headers, redirectCount)
+            return self._handleRedirect(
+                response, method, uri, headers, redirectCount, requestURI
+            )
         elif response.code in self._seeOtherResponses:
-            return self._handleRedirect(response, b"GET", uri, headers, redirectCount)
+            return self._handleRedirect(
+                response, b"GET", uri, headers, redirectCount, requestURI
+            )
         return response
 
 
@@ -1679,19 +1699,19 @@ class BrowserLikeRedirectAgent(RedirectAgent):
 
     Unlike L{RedirectAgent}, the implementation is more relaxed: 301 and 302
     behave like 303, redirecting automatically on any method and altering the
-    redirect request to a I{GET}.
+    redirect request to a I{GET}.  307 and 308 never alter the method: as with
+    L{RedirectAgent} they are followed for I{GET} and I{HEAD} only.
 
     @see: L{RedirectAgent}
 
     @since: 13.1
     """
 
-    _redirectResponses = [http.TEMPORARY_REDIRECT]
+    _redirectResponses = [http.TEMPORARY_REDIRECT, http.PERMANENT_REDIRECT]
     _seeOtherResponses = [
         http.MOVED_PERMANENTLY,
         http.FOUND,
         http.SEE_OTHER,
-        http.PERMANENT_REDIRECT,
     ]
 
 
